@@ -32,6 +32,8 @@ func features() sqlgen.Features {
 	f.QuotedDDLNames = hx.Allowed("c03.ddl_quoted_names")
 	f.IndexNulls = hx.Allowed("c03.index_nulls")
 	f.DDLExtras = hx.Allowed("c03.ddl_extras")
+	f.Alter = hx.Allowed("c03.alter_table")
+	f.AlterQualified = hx.Allowed("c03.alter_qualified_table")
 	return f
 }
 
